@@ -446,16 +446,18 @@ theorem counterexample_fast_inline_none_keys :
     ∧ sizeAt "s" (fastSerialize noMappers [] false false cxInline cxInlineX) = 2 := by
   decide
 
-/-- finding `fast:untyped-raw`: an untyped Deque is returned as the live deque object, not a list -/
-def cxDeque : FieldDecl := mkCls "A" ["q"] [("q", .seqAny .deque {})]
-def fieldIsDeque (r : R PyVal) : Bool :=
+/-- finding `fast:untyped-raw`: the elements of an untyped Array / Deque / Map are copied, not
+    serialized: a tuple inside stays a tuple where the regular path emits a JSON array -/
+def cxUntyped : FieldDecl := mkCls "A" ["q"] [("q", .seqAny .list {})]
+def fieldHoldsTuple (r : R PyVal) : Bool :=
   match r with
-  | .ok (.dict [(_, .deque _)]) => true
+  | .ok (.dict [(_, .list [.tuple _])]) => true
   | _ => false
 theorem counterexample_fast_untyped_raw :
-    createOk noMappers [] cxDeque = true
-    ∧ fieldIsDeque (serialize exO cxDeque (.inst "A" [("q", .deque [.int 1])])) = false
-    ∧ fieldIsDeque (fastSerialize noMappers [] false false cxDeque (.inst "A" [("q", .deque [.int 1])])) = true := by
+    createOk noMappers [] cxUntyped = true
+    ∧ fieldHoldsTuple (serialize exO cxUntyped (.inst "A" [("q", .list [.tuple [.int 2, .int 3]])])) = false
+    ∧ fieldHoldsTuple (fastSerialize noMappers [] false false cxUntyped
+        (.inst "A" [("q", .list [.tuple [.int 2, .int 3]])])) = true := by
   decide
 
 /-- finding `fast:extras-dropped` (documented limitation): an attribute that is not a declared
